@@ -35,6 +35,11 @@ PAYLOADS = [
     ("inner-space", "a \t b"), ("nonascii", "température °C"), ("astral", "\U0001f321 ok"),
     ("arabic-digits", "١٢"), ("long", "x" * 300), ("nul", "a\x00b"), ("cr-inside", "a\rb"),
     ("quote", "\"';\\"), ("slash", "a/b/c"), ("hash", "#+/"),
+    # text that Unicode normalisation, case folding or line splitting would change: none of it may be touched
+    ("combining", "Cafe\u0301 sensor"), ("ohm-sign", "4.7 k\u2126"), ("angstrom", "\u212b"), ("compat", "\ufb01x \u2460 \uff12"),
+    ("micro", "\u00b5 vs \u03bc"), ("case", "\u1e9e \u0130 \u0131 STRASSE"), ("bidi", "\u202eabc"), ("zwj", "a\u200db"),
+    ("bom", "\ufeffx"), ("nbsp-lead", "\u00a0x"), ("linesep-inside", "first\u2028second"), ("nel-inside", "caf\x85ol\xe9"),
+    ("fs-inside", "\x01\x02\x1c\x03"), ("ff-inside", "page1\x0cpage2;x"), ("vt-inside", "a\x0bb"), ("hangul", "\u1112\u1161\u11ab"),
 ]
 
 
